@@ -571,3 +571,15 @@ def cache_order_histories(L, lo, hi, full=True):
         tail = [q for q in (e - 1, e, e + 1, (e // DAY_NS + 1) * DAY_NS - 1) if ok(q)]
         for kk in sorted({x for x in LONG_K + (kmax,) if 1 <= x <= kmax}):
             yield e, "long-interval", "%d x 512 periods before the end first" % kk, [e - kk * span] + tail
+
+
+def fresh_cached(z):
+    """a new, empty caching wrapper around the zone underneath a provider zone (private factory; None when unavailable)"""
+    u = uncached(z)
+    if u is None:
+        return None
+    try:
+        f = type(z)._for_zone(u)
+    except Exception:  # noqa: BLE001
+        return None
+    return f if (f is not z and f is not u and type(f) is type(z)) else None
